@@ -29,8 +29,8 @@ def check_C20(ctx, rep):
         rules_base.expect_equiv(rep, "R54g", "TryFrom<(f64,f64)> stores the checked words untouched", "gate-tryfrom", tr,
                                 ("if", mk("call", "fn:no_overlap", x, y), ("leaf", OK, ()), ("ERR",)), b, "no_overlap(v.0, v.1) ? Ok{v.0, v.1} : Err", leaf_eq=leq)
     if ctx.tier == "thorough":
-        fb = ctx.facts("B")
-        check_serde(rep, fb, sfx=" [cfg B]")
+        fb = ctx.facts("S")
+        check_serde(rep, fb, sfx=" [cfg S]")
 
 # ------------------------------------------------------------------ R53 (AST)
 
@@ -86,12 +86,13 @@ def check_format_ast(rep, f, sitemap):
                         return isinstance(p["precision"], dict) and p["precision"].get("arg") is not None
                     return p["precision"] is None
                 # (which values the placeholders print - hi, the sign character, fabs(lo), in this order - is decided on the compiled body: R53m)
-                if p1["trait"] != tr: errs.append("first numeral uses {:%s} inside %s" % (p1["trait"], tr))
+                # (the trait a numeral is rendered with is decided on the compiled body, where a private wrapper type is read through: R53m)
+                if p1["trait"] not in (tr, "Display"): errs.append("first numeral uses {:%s} inside %s" % (p1["trait"], tr))
                 if (p1["sign"] == "Plus") != bool(plus) or (p1["sign"] not in (None, "Plus")): errs.append("'+' flag on the first numeral is %s in the %s branch" % (p1["sign"], "sign_plus" if plus else "plain"))
                 if not prec_ok(p1): errs.append("precision of the first numeral is %s" % (p1["precision"],))
                 if not clean(p1): errs.append("extra format options on the first numeral")
                 if p2["trait"] != "Display" or p2["sign"] or p2["precision"] or not clean(p2): errs.append("middle placeholder is not a plain character")
-                if p3["trait"] != tr: errs.append("last numeral uses {:%s} inside %s" % (p3["trait"], tr))
+                if p3["trait"] not in (tr, "Display"): errs.append("last numeral uses {:%s} inside %s" % (p3["trait"], tr))
                 if p3["sign"] is not None: errs.append("last numeral carries a sign flag")
                 if not prec_ok(p3): errs.append("precision of the last numeral is %s" % (p3["precision"],))
                 if not clean(p3): errs.append("extra format options on the last numeral")
@@ -102,6 +103,40 @@ def check_format_ast(rep, f, sitemap):
     rep.floor("R53", n_sites, 12, "format_args! sites reached from the three fmt impls")
 
 # ------------------------------------------------------------------ R53 (MIR wiring)
+
+CTOR_OF_TRAIT = {"Display": "new_display", "LowerExp": "new_lower_exp", "UpperExp": "new_upper_exp"}
+
+def unwrap_numeral(f, x):
+    """an argument `Argument::new_<k><W>(w)` whose type W is a private wrapper of this crate is what W's fmt impl prints:
+    when that impl (read with W's type arguments) is a single call of f64's Display / LowerExp / UpperExp on one word of w,
+    the argument is equivalent to `Argument::new_<that trait><f64>(word)`"""
+    if not (tag(x) == "call" and x[1].startswith("core::fmt::rt::Argument::<>::new_") and len(x) == 3):
+        return x
+    m = re.match(r"^core::fmt::rt::Argument::<>::new_(\w+)<(.+)>$", x[1])
+    if not m or m.group(2) in ("f64", "char", "usize"):
+        return x
+    ctor, wty = m.group(1), m.group(2)
+    trait = {v: k for k, v in CTOR_OF_TRAIT.items()}.get("new_" + ctor)
+    if trait is None:
+        return x
+    base, _, rest = wty.partition("<")
+    targs = [a.strip() for a in rest[:-1].split(",")] if rest else []
+    for b in f.live:
+        if b.trait == "core::fmt::" + trait and b.name == "fmt" and b.self_ty and b.self_ty.partition("<")[0] == base:
+            gens = b.generics
+            if len(gens) != len(targs):
+                continue
+            try:
+                ex = vg.Exec(f, vg.Policy(f, "op", inline_private=True))
+                t = ex.run_body(b, args=[x[2], None], subst=dict(zip(gens, targs)))
+            except vg.Unsupported:
+                return x
+            if t[0] == "leaf" and tag(t[1]) == "call" and len(t[1]) == 4:
+                mm = re.search(r"core::fmt::(Display|LowerExp|UpperExp) for f64", t[1][1])
+                if mm and t[1][3] is P(1):
+                    return mk("call", "core::fmt::rt::Argument::<>::%s<f64>" % CTOR_OF_TRAIT[mm.group(1)], t[1][2])
+            return x
+    return x
 
 def check_format_mir(rep, f):
     templates = {}
@@ -146,6 +181,7 @@ def check_format_mir(rep, f):
                 errs.append("precision arguments are not f.precision()'s value for both numerals exactly when a precision was requested")
             if len(items) != 3 + len(precs):
                 errs.append("unexpected extra arguments")
+            items = [unwrap_numeral(f, x) for x in items]
             nums = [x for x in items if tag(x) == "call" and x[1].startswith("core::fmt::rt::Argument::<>::new_") and x[1].endswith("<f64>")]
             chars = [x for x in items if tag(x) == "call" and x[1] == "core::fmt::rt::Argument::<>::new_display<char>"]
             if len(nums) != 2 or len(chars) != 1:
@@ -201,6 +237,28 @@ def plumbing_only(term, stop=()):
             return False
     return True
 
+TRYFROM = "<TwoFloat as core::convert::TryFrom<(f64, f64)>>::try_from"
+
+def ok_value_source(v, path):
+    """the tuple handed to TwoFloat::try_from when `v` is that call's Ok payload passed on (explicit match on the
+    result, or Result::map_err kept opaque); None for any other way of producing a value"""
+    if tag(v) == "call" and "map_err" in v[1] and tag(v[2]) == "call" and v[2][1] == TRYFROM:
+        return v[2][2]
+    if tag(v) == "agg" and v[1][0] == "adt" and v[1][3] == "Ok" and len(v[2]) == 1:
+        x = v[2][0]
+        if tag(x) == "field" and x[2] == 0 and tag(x[1]) == "downcast" and x[1][2] == "Ok" and tag(x[1][1]) == "call" and x[1][1][1] == TRYFROM:
+            tf = x[1][1]
+            if any(tag(c) == "discr" and c[1] is tf and val == 0 for c, val in path):
+                return tf[2]
+    return None
+
+def is_err_leaf(v):
+    return (tag(v) == "agg" and v[1][0] == "adt" and v[1][3] == "Err") or (tag(v) == "call" and "from_residual" in v[1])
+
+def none_tested(path):
+    """the Option terms whose discriminant is None (0) on the path, innermost last"""
+    return [c[1] for c, val in path if tag(c) == "discr" and (val == 0 or val == "other")]
+
 def check_serde(rep, f, sfx=""):
     ser = f.get("<TwoFloat as serde::Serialize>::serialize")
     if ser is None:
@@ -223,7 +281,7 @@ def check_serde(rep, f, sfx=""):
     rep.check(ok, "R54", "Serialize writes struct{hi, lo}" + sfx, "serde-writer", "Serialize does not emit a two-field struct (\"hi\" = self.hi, then \"lo\" = self.lo): %s" % (detail,), where=H.where(ser), detail=detail)
     # other Ok-producing leaves must not exist
     # reader: field identifier
-    vs = [b for b in f.live if b.name == "visit_str" and "serialization" in b.key and b.kind != "Closure"]
+    vs = [b for b in f.live if b.name == "visit_str" and b.trait == "serde::de::Visitor" and b.kind != "Closure"]
     variants = {}
     if len(vs) != 1:
         rep.fail("R54", "field visitor" + sfx, "anchor-lost:visit_str", "field identifier visitor not found (reason=anchor-lost)")
@@ -249,22 +307,24 @@ def check_serde(rep, f, sfx=""):
         rep.check(table == {"hi": "Hi", "lo": "Lo"} and unknown_ok, "R54", "field names" + sfx, "serde-fields",
                   "the field visitor maps %s (expected exactly \"hi\" -> Hi, \"lo\" -> Lo, anything else -> unknown_field)" % table, where=H.where(vs[0]), detail=table)
     # visit_seq
-    sq = [b for b in f.live if b.name == "visit_seq" and "serialization" in b.key and b.kind != "Closure"]
+    sq = [b for b in f.live if b.name == "visit_seq" and b.trait == "serde::de::Visitor" and b.kind != "Closure"]
     if len(sq) != 1:
         rep.fail("R54", "visit_seq" + sfx, "anchor-lost:visit_seq", "visit_seq not found (reason=anchor-lost)")
     else:
         t = H.tree_of(f, sq[0], "op")
-        oks = []; bad = []
+        oks = []; bad = []; lens = []
         for path, leaf in vg.leaves(t):
             if leaf[0] != "leaf":
                 continue
             v = leaf[1]
-            if tag(v) == "call" and "map_err" in v[1] and tag(v[2]) == "call" and v[2][1] == "<TwoFloat as core::convert::TryFrom<(f64, f64)>>::try_from":
-                oks.append(v[2][2])
-            elif tag(v) == "call" and "from_residual" in v[1]:
-                pass
-            elif tag(v) == "agg" and v[1][3] == "Err":
-                pass
+            src = ok_value_source(v, path)
+            if src is not None:
+                oks.append(src)
+            elif is_err_leaf(v):
+                il = [n for n in all_nodes(v) if tag(n) == "call" and "invalid_length" in n[1]]
+                if il and tag(il[0][2]) == "const":
+                    nt = none_tested(path)
+                    lens.append((il[0][2][2], nt[-1] if nt else None))
             else:
                 bad.append(v)
         ok = len(oks) == 1 and not bad
@@ -276,24 +336,31 @@ def check_serde(rep, f, sfx=""):
             # e0 must depend on exactly the first next_element(seq), e1 on the second (whose access is the first's after-state)
             first = [x for x in n0 if x[2] is P(1)]
             ok = len(n0) == 1 and len(first) == 1 and len(n1) == 2 and first[0] in n1 and plumbing_only(e0) and plumbing_only(e1)
-            # invalid_length indices from the closures
-            cl0 = [x for x in all_nodes(e0) if tag(x) == "agg" and x[1][0] == "closure"]
-            cl1 = [x for x in all_nodes(e1) if tag(x) == "agg" and x[1][0] == "closure" and x not in cl0]
-            idx = []
-            for cl in (cl0, cl1):
-                found = []
-                for c in cl:
-                    cb = f.by_key.get(c[1][1])
-                    ct = H.tree_of(f, cb, "op") if cb else None
-                    calls = [n for n in all_nodes(ct[1]) if tag(n) == "call" and "invalid_length" in n[1]] if ct and ct[0] == "leaf" else []
-                    found += [calls[0][2][2] if tag(calls[0][2]) == "const" else None] if calls else []
-                idx.append(found[0] if len(found) == 1 else None)
+            second = [x for x in n1 if x not in n0]
+            # a missing element k is reported as invalid_length(k): read from the error leaves (explicit form) or from the closures
+            idx = [None, None]
+            for k_, opt in lens:
+                for j, nn in enumerate((first[:1], second[:1])):
+                    if nn and opt is not None and nn[0] in set(all_nodes(opt)) and not any(o is not nn[0] and o in set(all_nodes(opt)) for o in (second[:1] if j == 0 else [])):
+                        idx[j] = k_ if idx[j] is None else idx[j]
+            if idx == [None, None]:
+                cl0 = [x for x in all_nodes(e0) if tag(x) == "agg" and x[1][0] == "closure"]
+                cl1 = [x for x in all_nodes(e1) if tag(x) == "agg" and x[1][0] == "closure" and x not in cl0]
+                idx = []
+                for cl in (cl0, cl1):
+                    found = []
+                    for c in cl:
+                        cb = f.by_key.get(c[1][1])
+                        ct = H.tree_of(f, cb, "op") if cb else None
+                        calls = [n for n in all_nodes(ct[1]) if tag(n) == "call" and "invalid_length" in n[1]] if ct and ct[0] == "leaf" else []
+                        found += [calls[0][2][2] if tag(calls[0][2]) == "const" else None] if calls else []
+                    idx.append(found[0] if len(found) == 1 else None)
             detail = {"element0": "first next_element", "element1": "second next_element", "invalid_length": idx}
             ok = ok and idx == [0, 1]
         rep.check(ok, "R54", "visit_seq passes (element 0, element 1) to try_from" + sfx, "serde-seq", "visit_seq does not hand element 0 and element 1, in order, to TwoFloat::try_from (or has another way to Ok): %s %s" % (detail, [vg.show(x)[:80] for x in bad]),
                   where=H.where(sq[0]), detail=detail)
     # visit_map (loop: havoc analysis)
-    vm = [b for b in f.live if b.name == "visit_map" and "serialization" in b.key and b.kind != "Closure"]
+    vm = [b for b in f.live if b.name == "visit_map" and b.trait == "serde::de::Visitor" and b.kind != "Closure"]
     if len(vm) != 1:
         rep.fail("R54", "visit_map" + sfx, "anchor-lost:visit_map", "visit_map not found (reason=anchor-lost)")
     else:
@@ -337,7 +404,7 @@ def check_visit_map(rep, f, b, variants, sfx):
     errs = []
     if len(slots) != 2:
         errs.append("expected two Option<f64> accumulators initialised to None, found %d" % len(slots))
-    oks = []; dup = {}; upd = {}
+    oks = []; dup = {}; upd = {}; missing = {}
     def closure_field(n):
         for c in all_nodes(n):
             if tag(c) == "agg" and c[1][0] == "closure":
@@ -364,15 +431,23 @@ def check_visit_map(rep, f, b, variants, sfx):
             upd[var] = changed
         elif leaf[0] == "leaf":
             v = leaf[1]
-            if tag(v) == "call" and "map_err" in v[1] and tag(v[2]) == "call" and v[2][1] == "<TwoFloat as core::convert::TryFrom<(f64, f64)>>::try_from":
-                oks.append(v[2][2])
-            elif tag(v) == "agg" and v[1][3] == "Err":
+            src = ok_value_source(v, path)
+            if src is not None:
+                oks.append(src)
+            elif is_err_leaf(v):
                 d = [n for n in all_nodes(v) if tag(n) == "call" and "duplicate_field" in n[1]]
                 if d:
+                    # the accumulator found occupied: `x.is_some()` kept opaque, or the discriminant test it is
                     tested = [c[2] for c, x in path if x is True and tag(c) == "call" and "is_some" in c[1]]
+                    tested += [c[1] for c, x in path if tag(c) == "discr" and x == 1 and c[1] in slots]
+                    tested += [c[3][1] for c, x in path if x is True and tag(c) == "cmp" and c[1] == "eq" and tag(c[3]) == "discr" and c[3][1] in slots
+                               and tag(c[4]) == "const" and c[4][2] == 1]
                     dup[var] = (strv(d[0][2]), tested[-1] if tested else None)
-            elif tag(v) == "call" and "from_residual" in v[1]:
-                pass
+                mf = [n for n in all_nodes(v) if tag(n) == "call" and "missing_field" in n[1]]
+                if mf:
+                    nt = [o for o in none_tested(path) if o in slots]
+                    if nt:
+                        missing[nt[-1]] = strv(mf[0][2])
             else:
                 errs.append("unexpected result %s" % vg.show(v)[:100])
     if len(oks) != 1:
@@ -382,7 +457,8 @@ def check_visit_map(rep, f, b, variants, sfx):
         comps = []
         for comp in tup[2]:
             hvs = [n for n in all_nodes(comp) if n in slots]
-            comps.append((hvs[0] if len(hvs) == 1 else None, closure_field(comp)))
+            h_ = hvs[0] if len(set(hvs)) == 1 else None
+            comps.append((h_, missing.get(h_) or closure_field(comp)))
         (h_hi, m_hi), (h_lo, m_lo) = comps
         if not all(plumbing_only(comp) for comp in tup[2]):
             errs.append("an accumulated word is modified on its way to try_from")
